@@ -62,7 +62,7 @@ def classify_c02(h, st, b, known):
 
 def gen_config(ctx, pid):
     q = ctx.quick()
-    return dict(n=(400 if q else 6000), seeds=[ctx.seed] if q else [ctx.seed, ctx.seed + 1000, ctx.seed + 2000])
+    return dict(n=(2500 if q else 12000), seeds=[ctx.seed] if q else [ctx.seed, ctx.seed + 1000, ctx.seed + 2000])
 
 def run_engine_property(ctx, pid, oracles, feat=None, faults=0.25, n=None, nsteps=(1, 6), nedges=(2, 9), extra_hists=None, wf_reads=True):
     cfg = gen_config(ctx, pid)
